@@ -93,6 +93,16 @@ func vpPaging(plus bool) {
 		st := rd.u32()
 		if st == 10005 { // NFS3ERR_TOOSMALL: legitimate only when not even one entry fits
 			vpReach("toosmall")
+			// post_op_attr (88) + cookieverf (8) + the first remaining entry + the two closing words
+			need := uint64(88 + 8 + 8)
+			if len(got) < e {
+				nl := (len(names[len(got)]) + 3) / 4 * 4
+				need += uint64(4 + 8 + 4 + nl + 8)
+				if plus {
+					need += 88 + 16
+				}
+			}
+			vpAssert(need > uint64(count), "toosmall-only-when-nothing-fits")
 			return
 		}
 		vpAssert(st == NFS_OK, "readdir-ok")
@@ -100,9 +110,11 @@ func vpPaging(plus bool) {
 		rd.u64() // cookieverf
 		ents, e2 := vpReadEntries(rd, plus)
 		vpAssert(rd.done(), "reply-shape")
-		// the encoded result fits the size the client gave
-		vpKnown("K-C26-reply-exceeds-count", true)
-		vpAssert(uint64(len(body)) <= uint64(count), "reply-fits-count")
+		// the encoded READDIR3resok / READDIRPLUS3resok (the body after the status word) fits the size
+		// the client gave. Known: the server always returns the first entry (and never answers
+		// TOOSMALL), so a result holding at most one entry may still exceed the count.
+		vpKnown("K-C26-reply-exceeds-count", len(ents) <= 1)
+		vpAssert(uint64(len(body)-4) <= uint64(count), "reply-fits-count")
 		vpKnownClear()
 		remaining := e - len(got)
 		if remaining > 0 {
